@@ -418,7 +418,7 @@ package plenccodec
 //@   noreads[C03] description.index           # ... and not by declaration order either: only the index table is consulted
 //@   ensures[C03,C05] err == nil ==> n == len(data)       # every field, known or skipped, is consumed exactly: the reader ends at the end
 //@   loop 1 invariant[C04] 0 <= offset && offset <= l && l == len(data)
-//@   loop 1 decreases l - offset
+//@   loop 1 decreases[C03,C04] l - offset
 //@   ensures[C04,C05] err == nil ==> 0 <= n && n <= len(data)
 
 //@ func plenccodec.*MapCodec.Read
